@@ -180,6 +180,9 @@ func checkC07(c *Ctx) {
 	}
 	c.R.Min("R-bounded-scanner", 1)
 
+	c07ReconnectPaced(c, fns)
+	c07OnceComplete(c, fns)
+
 	// ---- R-closed-recv
 	closedFields := map[string]bool{}
 	for _, cs := range closeSites(c, fns) {
@@ -314,4 +317,180 @@ func errorEdgeSpins(fn *ssa.Function, from *ssa.BasicBlock, call *ssa.Call) bool
 		}
 	}
 	return false
+}
+
+// ---------------------------------------------------------------- R-reconnect-paced
+// A loop that performs an HTTP exchange in every iteration through a callee (re-connecting, re-sending) must pace
+// itself in the same function: every trip around the loop that passes such a call also passes a wait on a timer, or
+// consumes input from the peer (a blocking read of the stream it is serving). Otherwise a server that ends every
+// exchange immediately (empty stream, clean close) makes the client spin at full speed.
+func c07ReconnectPaced(c *Ctx, fns []*ssa.Function) {
+	// functions from which an HTTP dispatch is reachable synchronously
+	dispatches := map[*ssa.Function]bool{}
+	isDispatchName := func(n string) bool {
+		return n == "(*net/http.Client).Do" || strings.HasPrefix(n, "(mcp.HTTPReqHandler).")
+	}
+	for _, fn := range fns {
+		for f := range c.ReachSync(fn) {
+			found := false
+			ir.EachCall(f, func(call ssa.CallInstruction) {
+				if isDispatchName(ir.CallName(call)) {
+					found = true
+				}
+			})
+			if found {
+				dispatches[fn] = true
+				break
+			}
+		}
+	}
+	paces := func(in ssa.Instruction) bool {
+		switch x := in.(type) {
+		case *ssa.Select:
+			for _, st := range x.States {
+				if oc := originCall(st.Chan); oc != nil && (ir.CallName(oc) == "time.After" || ir.CallName(oc) == "(*time.Timer).Reset") {
+					return true
+				}
+				if f, _, ok := ir.LoadedField(st.Chan); ok && (ir.TypeStr(f.Struct) == "time.Timer" || ir.TypeStr(f.Struct) == "time.Ticker") {
+					return true
+				}
+			}
+		case *ssa.UnOp:
+			if x.Op == token.ARROW {
+				if oc := originCall(x.X); oc != nil && ir.CallName(oc) == "time.After" {
+					return true
+				}
+			}
+		case *ssa.Call:
+			switch ir.CallName(x) {
+			case "time.Sleep", "(*bufio.Scanner).Scan", "(*bufio.Reader).ReadString", "(*bufio.Reader).ReadBytes", "(*bufio.Reader).ReadLine", "(*encoding/json.Decoder).Decode":
+				return true
+			}
+		}
+		return false
+	}
+	n := 0
+	for _, fn := range fns {
+		ir.EachInstr(fn, func(_ *ssa.BasicBlock, _ int, in ssa.Instruction) {
+			call, ok := in.(*ssa.Call)
+			if !ok || !flow.InCycle(call.Block()) {
+				return
+			}
+			reaches := isDispatchName(ir.CallName(call))
+			for _, cal := range ir.Callees(c.G, call) {
+				if dispatches[cal] {
+					reaches = true
+				}
+			}
+			// user-supplied operation run by a retry executor
+			if call.Call.Value != nil && !call.Call.IsInvoke() {
+				if _, isSig := call.Call.Value.Type().Underlying().(*types.Signature); isSig && ir.StaticCallee(call) == nil {
+					if _, isParam := call.Call.Value.(*ssa.Parameter); isParam {
+						reaches = true
+					}
+				}
+			}
+			if !reaches {
+				return
+			}
+			n++
+			// a cycle from the call back to itself that avoids every pacing instruction?
+			spin := cycleAvoiding(call, paces)
+			c.R.Check(!spin, "R-reconnect-paced", "exchange repeated in a loop of "+fname(fn), c.Pos(call.Pos()), "every trip around the loop waits on a timer or consumes peer input",
+				sprintf("%s repeats an HTTP exchange in a loop and some trip around the loop neither waits on a timer nor reads from the peer in this function: a server that ends each exchange at once makes the client spin", fname(fn)))
+		})
+	}
+	c.R.Min("R-reconnect-paced", 1)
+	_ = n
+}
+
+// cycleAvoiding: is there a CFG path from just after `at` back to `at` that passes no instruction satisfying stop?
+func cycleAvoiding(at ssa.Instruction, stop func(ssa.Instruction) bool) bool {
+	b0 := at.Block()
+	idx := 0
+	for i, in := range b0.Instrs {
+		if in == at {
+			idx = i
+		}
+	}
+	// rest of the start block
+	for _, in := range b0.Instrs[idx+1:] {
+		if stop(in) {
+			return false
+		}
+	}
+	seen := map[*ssa.BasicBlock]bool{}
+	stack := append([]*ssa.BasicBlock{}, b0.Succs...)
+	for len(stack) > 0 {
+		b := stack[len(stack)-1]
+		stack = stack[:len(stack)-1]
+		if seen[b] {
+			continue
+		}
+		seen[b] = true
+		blocked := false
+		for i, in := range b.Instrs {
+			if b == b0 && i >= idx {
+				// back at the call without having passed a pacing instruction
+				return true
+			}
+			if stop(in) {
+				blocked = true
+				break
+			}
+		}
+		if blocked {
+			continue
+		}
+		stack = append(stack, b.Succs...)
+	}
+	return false
+}
+
+// ---------------------------------------------------------------- R-once-complete
+// A sync.Once guards the single publication of something the rest of the client waits for (it closes a latch channel).
+// Once the closure has started, the Once is spent: if the closure can return without closing the latch (for instance
+// because the peer's first event was malformed), no later event can ever publish it and every call waits forever.
+// Every path through such a closure must therefore reach the close.
+func c07OnceComplete(c *Ctx, fns []*ssa.Function) {
+	n := 0
+	for _, fn := range fns {
+		ir.EachInstr(fn, func(_ *ssa.BasicBlock, _ int, in ssa.Instruction) {
+			call, ok := in.(*ssa.Call)
+			if !ok || ir.CallName(call) != "(*sync.Once).Do" || len(call.Call.Args) < 2 {
+				return
+			}
+			mc, ok := call.Call.Args[1].(*ssa.MakeClosure)
+			if !ok {
+				return
+			}
+			body, ok := mc.Fn.(*ssa.Function)
+			if !ok {
+				return
+			}
+			isLatchClose := func(x ssa.Instruction) bool {
+				cl, ok := x.(*ssa.Call)
+				if !ok || ir.CallName(cl) != "builtin.close" {
+					return false
+				}
+				_, _, isField := ir.LoadedField(cl.Call.Args[0])
+				return isField
+			}
+			has := false
+			ir.EachInstr(body, func(_ *ssa.BasicBlock, _ int, x ssa.Instruction) {
+				if isLatchClose(x) {
+					has = true
+				}
+			})
+			if !has {
+				return
+			}
+			n++
+			esc := flow.ExitsAvoiding(body, nil, isLatchClose, false)
+			c.R.Check(esc == nil, "R-once-complete", "once-guarded publication in "+fname(fn), c.Pos(call.Pos()), "every path through the once-guarded closure closes the latch",
+				sprintf("the closure %s runs under sync.Once can return (near %s) without closing the latch channel it exists to close: one malformed event spends the Once, no later event can publish, and every caller waiting for the latch hangs", fname(fn), iposEsc(c, esc)))
+		})
+	}
+	c.R.Min("R-once-complete", 1)
+	_ = n
 }
